@@ -176,6 +176,15 @@ def run(repo, chk, tier):
         an = analyses.get(f)
         if an is None:
             an = FnAnalysis(f, eff, scope)
+        if kind == "delegate" and not f.is_contextmanager():
+            # a pass-through may hand back the inner manager itself (`return self.vm.mask_params(var)`) instead of
+            # wrapping it in `with inner: yield`: the caller enters the very manager the wrapper would have entered
+            body_ = [st for st in f.node.body if not (isinstance(st, ast.Expr) and isinstance(st.value, ast.Constant))]
+            mgr_names = {k.split("::")[1].split(".")[-1] for k, v in SURFACE.items() if v[1] in ("manager", "delegate")}
+            if len(body_) == 1 and isinstance(body_[0], ast.Return) and isinstance(body_[0].value, ast.Call) and isinstance(body_[0].value.func, (ast.Attribute, ast.Name)) and (body_[0].value.func.attr if isinstance(body_[0].value.func, ast.Attribute) else body_[0].value.func.id) in mgr_names:
+                n_surface += 1
+                chk.instance("R1", "%s [delegate] returns the inner manager `%s` itself" % (key, norm_text(body_[0].value)[:60]), nontrivial=False)
+                continue
         if kind in ("manager", "delegate") and not f.is_contextmanager():
             raise AnalysisError("surface entry %s is no longer a @contextmanager" % key)
         n_surface += 1
